@@ -4,7 +4,7 @@
    engine over flat rich text), Model/Styles.v (labels, sorting, BaseStyle), Model/Citations.v
    (C05: citation resolution). *)
 From Pybtex Require Import Base.Prelude Base.PyChar Base.PyStr Model.RtTypes Model.Citations Model.Template Model.Styles
-  Proofs.Template Proofs.Styles.
+  Proofs.Template Proofs.TemplateEmit Proofs.Styles Proofs.StylesEmit.
 Require Import Coq.Sorting.Permutation Coq.Sorting.Sorted.
 
 (* exactly one formatted entry per resolved citation (the citations resolved as in C05:
@@ -127,6 +127,69 @@ Theorem protected_case_kept_in_sentence : forall cf cp ap sep vs,
 Proof. exact sentence_vals_protected. Qed.
 Print Assumptions protected_case_kept_in_sentence.
 
+
+(* ---- every field the style prints appears in the rendered text ---- *)
+
+(* `live c t f`: f is the value of a field / names leaf of t that is printed: not under a failed
+   `optional`, in the chosen alternative of every first_of.  `chars` folds the case and forgets the
+   markup; `infix` is contiguous occurrence.  Every live leaf occurs in the text the template evaluates
+   to, up to the case transformations (capfirst / capitalize / lower / upper of sentences). *)
+Theorem eval_emits_leaves : forall c t f v,
+  live c t f -> eval c t = TOk v -> infix (chars f) (chars (vflat v)).
+Proof. exact eval_emits_leaves_stmt. Qed.
+Print Assumptions eval_emits_leaves.
+
+(* ... and so in every formatted entry of a produced bibliography, which is the evaluation of its
+   entry's template *)
+Theorem bibliography_emits_leaves : forall cf tbl tp db cites out x,
+  format_bibliography cf tbl tp db cites = TOk out -> In x out ->
+  exists e t,
+    In e (entries_of db (fst (resolved db cites (cf_mincross cf)))) /\ fe_key x = e_key e /\
+    template_of tp e = Some t /\
+    eval_top (mkC e (Some db) tbl (cf_names cf) (cf_abbr cf)) t = TOk (fe_text x) /\
+    forall f, live (mkC e (Some db) tbl (cf_names cf) (cf_abbr cf)) t f -> infix (chars f) (chars (fe_text x)).
+Proof. exact bibliography_emits_leaves_lemma. Qed.
+Print Assumptions bibliography_emits_leaves.
+
+(* the value of a field leaf: the stored value (own field, persons of that role, or inherited through
+   crossref), parsed by Text.from_latex unless raw, with the apply function on top *)
+Theorem field_leaf_value : forall c n a raw g,
+  eval_field c n a raw = TOk (VT g) ->
+  exists v f,
+    find_field (S (match c_db c with Some d => length d | None => 0 end)) (c_db c) (c_entry c) n [] = Some (Some v) /\
+    (if raw then f = plain v else from_latex (c_dec c) v = TOk f) /\
+    apply_afunc a f = TOk g.
+Proof. exact eval_field_spec. Qed.
+Print Assumptions field_leaf_value.
+
+(* Text.from_latex keeps every character of the (decoded) value except the braces, in order *)
+Theorem from_latex_keeps_characters : forall s level f,
+  parse_latex s level = TOk f -> map fst f = map ACh (filter not_brace s).
+Proof. exact parse_latex_chars. Qed.
+Print Assumptions from_latex_keeps_characters.
+
+(* the documented case transformations change nothing but the case *)
+Theorem case_transformations_fold : forall a f g,
+  a <> ADashify -> apply_afunc a f = TOk g -> chars g = chars f.
+Proof. exact apply_afunc_chars. Qed.
+Print Assumptions case_transformations_fold.
+
+(* the documented dash transformation: everything but the unprotected hyphens is kept in order,
+   and no unprotected hyphen is left (each run has become one ndash symbol) *)
+Theorem dashify_spec : forall f,
+  nodash (f_dashify f) = nodash f /\ Forall (fun p => is_dash p = false) (f_dashify f).
+Proof. exact dashify_spec_lemma. Qed.
+Print Assumptions dashify_spec.
+
+(* label style alpha in a bibliography: base labels of the entries in output order, disambiguated *)
+Theorem alpha_labels_of_bibliography : forall cf tbl tp db cites out,
+  cf_label cf = LAlpha -> format_bibliography cf tbl tp db cites = TOk out ->
+  exists sorted bases,
+    map fe_key out = map e_key sorted /\ mapR format_label sorted = Ok bases /\
+    map fe_label out = disambiguate bases.
+Proof. exact alpha_labels_of_bibliography_lemma. Qed.
+Print Assumptions alpha_labels_of_bibliography.
+
 (* ---- non-vacuity ---- *)
 Definition ex_person : person := mkP [[74; 111]%N] [] [[118; 111; 110]%N] [[90; 101; 100]%N] [].
 Definition ex_tpl : tnode :=
@@ -166,3 +229,13 @@ Example sentence_example :
        (TSentence true false true (plain [c_comma; c_space]) [TField s_title AId false; TLit true (plain [120%N])])
   = TOk (VT (plain [65; 98; 44; 32; 120; 46]%N)).
 Proof. vm_compute. reflexivity. Qed.
+
+Example live_example :
+  let c := mkC (mkE [98%N] [] [(s_title, [116; 104; 101; 32; 123; 66; 125]%N)] [(s_author, [ex_person])]) None [] NSPlain false in
+  live c ex_tpl (plain [84; 104; 101; 32]%N ++ [(ACh 66%N, [MProt])]) /\
+  exists v, eval c ex_tpl = TOk v /\ fstr (vflat v) = s2l "Jo<nbsp>von Zed.<newblock>The B.".
+Proof.
+  split.
+  - eapply LvToplevel; [right; left; reflexivity|]. eapply LvSentence; [left; reflexivity|]. constructor. vm_compute. reflexivity.
+  - eexists. split; vm_compute; reflexivity.
+Qed.
